@@ -61,6 +61,7 @@ def gen(pid, entries, mode):
     out.append('')
     for mod, name in entries:
         st = find_stmt(mod, name)
+        last_scope = SCOPES.get((mod, name))
         use_alias = mode.get((mod, name)) == 'alias' or st is None or in_section(mod, name)
         if use_alias:
             out.append('Definition %s_%s := @%s.%s.' % (pid, name, mod, name))
@@ -70,6 +71,8 @@ def gen(pid, entries, mode):
             extra = IMPORTS.get(mod, '')
             if extra:
                 out.append(extra)
+            if last_scope:
+                out.append('Local Open Scope %s_scope.' % last_scope)
             out.append('Theorem %s_%s :\n  %s%s.' % (pid, name, ('forall %s,\n  ' % b) if b else '', t))
             out.append('Proof. exact (@%s.%s). Qed.' % (mod, name))
             out.append('End T_%s.' % name)
@@ -79,6 +82,7 @@ def gen(pid, entries, mode):
 
 
 IMPORTS = {}
+SCOPES = {}
 
 
 def file_imports(mod):
@@ -99,7 +103,10 @@ def main():
     for pid, entries in TABLE.items():
         if only and pid not in only:
             continue
-        entries = [tuple(e) for e in entries]
+        for e in entries:
+            if len(e) > 2:
+                SCOPES[(e[0], e[1])] = e[2]
+        entries = [tuple(e[:2]) for e in entries]
         for mod, _ in entries:
             names, opens = file_imports(mod)
             IMPORTS[mod] = ('Import ' + ' '.join(names) + '. ' if names else '') + ' '.join(opens)
